@@ -448,6 +448,12 @@ func runK7flush(r *rng, n int) {
 		if chained {
 			f2 = s.send(0, 108, map[string]interface{}{"OldTag": uint64(f1)})
 		}
+		// a second flush of the same running request: both wait, both are answered
+		twice := r.chance(1, 2)
+		var f3 uint16
+		if twice {
+			f3 = s.send(0, 108, map[string]interface{}{"OldTag": uint64(victim)})
+		}
 		// flush of an idle tag and of its own tag are answered at once; so is unrelated traffic
 		idleTag := s.send(0, 108, map[string]interface{}{"OldTag": uint64(60000)})
 		ownTag := s.nextTag()
@@ -470,7 +476,7 @@ func runK7flush(r *rng, n int) {
 			// the flush of the running request and the request itself must not be answered yet; the
 			// chained flush names a Tflush, which runs no backend call: whether it waits depends on
 			// whether that Tflush has registered its tag yet – both orders are legitimate
-			if tag == f1 || tag == victim {
+			if tag == f1 || tag == victim || (twice && tag == f3) {
 				early++
 			}
 		}
@@ -497,6 +503,9 @@ func runK7flush(r *rng, n int) {
 			if _, ok := got[f2]; chained && !ok {
 				k++
 			}
+			if _, ok := got[f3]; twice && !ok {
+				k++
+			}
 			return k
 		}
 		for missingNow() > 0 {
@@ -510,7 +519,7 @@ func runK7flush(r *rng, n int) {
 			got[tag] = rt
 		}
 		rflush, rvictim := 0, 0
-		if got[f1] == 109 && (!chained || got[f2] == 109) {
+		if got[f1] == 109 && (!chained || got[f2] == 109) && (!twice || got[f3] == 109) {
 			rflush = 1
 		}
 		if rt, ok := got[victim]; ok && rt != 109 {
@@ -525,7 +534,11 @@ func runK7flush(r *rng, n int) {
 			noteHang()
 		}
 		count("flushed:" + k.meth)
-		emit("k7flush victim=%s vtag=%d chained=%d => early=%d idle=%d own=%d other=%d rflush=%d rvictim=%d dup=%d", k.meth, victim, ch, early, idle, own, oth, rflush, rvictim, dup)
+		tw := 0
+		if twice {
+			tw = 1
+		}
+		emit("k7flush victim=%s vtag=%d chained=%d twice=%d => early=%d idle=%d own=%d other=%d rflush=%d rvictim=%d dup=%d", k.meth, victim, ch, tw, early, idle, own, oth, rflush, rvictim, dup)
 	}
 }
 
